@@ -7,8 +7,8 @@ memo), thermosteam/utils/cache.py (trim_cache) and thermosteam/_phase.py (PhaseI
 generator of lookup histories long enough to fill and evict both memo dictionaries; and the
 property oracle evaluated on the real objects only:
 
-  * `indexer[key]` against `indexer.data.to_array()` at the positions a FRESH chemicals object
-    (same chemicals, aliases and groups; never used for a lookup) gives for the names in the key;
+  * `indexer[key]` against `indexer.data.to_array()` at positions derived INDEPENDENTLY of the code under
+    test (ChemSet.table: from the chemicals' own IDs, CAS numbers and name sets and the user's definitions);
   * after `indexer[key] = data`: entries outside those positions untouched (frame), entries at
     them equal to what was written (a scalar written to a group distributed by its composition);
   * the same key on the same data gives the same answer whatever happened in between, and a
@@ -40,20 +40,30 @@ RULE = ('histories over real CompiledChemicals (1-8 bundled chemicals incl. isom
         'dyadic data (exact comparison). A case is non-trivial when at least one '
         'lookup succeeded on non-zero data; distinct = distinct op sequences')
 ASSUMPTIONS = [
-    'flow data are compared through to_array() (dense image); the sparse dictionary is the subject of C09',
+    'flow data are compared through to_array() (dense image); the sparse dictionary is the subject of C09; in the Lean '
+    'model the data are dense rows, so "a resolved key reads these positions" is true by definition there: the real '
+    'sparse-dictionary read paths (get_sparse_chemical_data kinds 0-3, the sum_across_phases branches) are decided by '
+    'correspondence + oracle, not by proof',
+    'expected positions come from ChemSet.table (independent of _compile / set_alias / define_group); only the accept/reject '
+    'decision of set_alias / define_group is taken from the code (and compared with the model on the same line)',
+    'value forms written: Python scalars, lists, ndarrays (odd op index), 2-d lists (one row per phase) for (..., key) and '
+    '(..., ...), and SparseVector rows of indexers of the same chemicals object (handed to the model as their entries); an '
+    'indexer\'s own row only for resets of that row, and not through its own mass view unless GEN_ALIASED_MASS_VALUE '
+    '(fixes_proposed/C10-6); lists of names are also handed over as NumPy arrays (every third op)',
+    'eviction order and the limits 100 / 500 are unobservable by the property (cache_transparent) and therefore by this check',
     'values and group compositions are dyadic with power-of-two composition sums, so all arithmetic is exact in binary64',
     'a sequence nested at depth >= 3 inside a key is passed to the model as "hashable" / "contains a list" only '
     '(nothing else about it can influence the outcome: it never resolves, so it is never memoised)',
-    'mass views and wt=True compositions involve MW (inexact in binary64): from the first such operation of a case on, '
-    'answers are compared with relative tolerance 1e-9 (marked ~); everything before and every other case is exact',
+    'mass views and wt=True compositions involve MW (inexact in binary64): an indexer whose data went through such an '
+    'operation (mass write, scalar through a wt=True group, transfer or SparseVector value from such an indexer) is compared '
+    'with relative tolerance 1e-9 from then on (answers marked ~), and so is every mass read; all other indexers stay exact',
     'not generated: set_alias(group name, another group name) (depends on which names share one list object); '
     'define_group with the name of a chemical or attribute unless GEN_GROUP_CLOBBER (fixes_proposed/C10-5); '
     'for (..., key) writes only scalars and 1-d data of the matching length; vectors longer than the row; '
     'repeated labels in the phases given to MaterialIndexer.blank',
     'modelled: ChemicalMolarFlowIndexer, MolarFlowIndexer, their by_mass() views (= stream.imass), SplitIndexer, '
-    'chemicals.array/kwarray/split/kwsplit (array and split; the kw forms zip a dict and call them); NOT modelled: '
-    'volumetric views (need V(T, P) models), iarray/ikwarray/isplit constructors (a blank indexer followed by the '
-    'modelled __setitem__), a single-phase receiver copy_like-ing a multi-phase source, nested vectors as SplitIndexer data',
+    'chemicals.array/kwarray/split/kwsplit/iarray/ikwarray/isplit (list and dict forms); NOT modelled: '
+    'volumetric views (need V(T, P) models), Chemical objects as keys, 2-d data on nested (..., key) writes, a single-phase receiver copy_like-ing a multi-phase source, nested vectors as SplitIndexer data',
     'the order of index_overlap\'s CAS tuple (insertion order of the sparse dict) is modelled as ascending '
     'position: by cache_transparent it cannot influence any result',
     'the model is written to the FIXED behaviour of fixes_proposed/C10-1..C10-4 (trim_cache, index_overlap kind, '
@@ -68,6 +78,7 @@ EXHAUSTIVE = {'quick': False, 'thorough': False}
 GEN_PHASE_ELLIPSIS = True        # keys ('l', ...) and (..., ...)                       (C10-3)
 GEN_REDEFINE_GROUPS = True       # define_group on an existing group name after lookups (C10-4)
 GEN_PHASE_LETTER_ALIAS = True    # set_alias(ID, 'l') after 'l' was looked up as a phase (C10-4)
+GEN_ALIASED_MASS_VALUE = True   # imass[...] = (the same stream's) mol  (fixes_proposed/C10-6); enable once it is committed
 GEN_GROUP_CLOBBER = True        # define_group with the name of a chemical or an attribute (C10-5); enable once C10-5 is committed
 
 tmo = None
@@ -82,7 +93,7 @@ RESERVED = ['tuple', 'size', 'IDs', 'CASs', 'MW', 'Hf', 'LHV', 'HHV', '_index', 
 ISOMERS = [('Ethanol', 'DimethylEther'), ('Propanol', 'Isopropanol'), ('Butanol', 'Isobutanol'), ('Butanol', 'DiethylEther'),
            ('Isobutanol', 'DiethylEther'), ('AceticAcid', 'MethylFormate')]
 VALID_PHASES = 'slgSL'
-POOL_DATA = {}      # name -> (CAS, names)
+_PLANNED = {}
 
 
 def setup():
@@ -91,14 +102,17 @@ def setup():
     from thermosteam import indexer
     tmo, ind, np = thermosteam, indexer, numpy
     warnings.simplefilter('ignore')
-    for n in POOL:
-        c = tmo.Chemical(n, cache=False)
-        POOL_DATA[n] = (c.CAS, all_names(c))
+
+
+def extra_evidence(executed, model_outs):
+    return {'cases_planned': _PLANNED.get('cases'), 'cases_run': len(executed)}
 
 
 def budget(tier):
-    return {'quick': dict(seconds=40, cases=400, shrink_s=20, search_s=0),
-            'thorough': dict(seconds=360, cases=9600, shrink_s=60, search_s=0)}[tier]
+    b = {'quick': dict(seconds=60, cases=400, shrink_s=20, search_s=0),
+         'thorough': dict(seconds=420, cases=9600, shrink_s=60, search_s=0)}[tier]
+    _PLANNED['cases'] = b['cases']
+    return b
 
 
 # --------------------------------------------------------------------------
@@ -155,11 +169,13 @@ def parse_data(tok):
     if tok.startswith('s:'): return float(Fraction(tok[2:]))
     if tok.startswith('v:'):
         return [float(Fraction(x)) for x in tok[2:].split(',')] if tok[2:] else []
-    if tok == 'm:': return [[1., 2.]]
+    if tok.startswith('m:'):
+        return [[float(Fraction(x)) for x in r.split(',')] if r else [] for r in tok[2:].split(';')]
     raise ValueError(tok)
 
 
 def show_data(d):
+    if isinstance(d, list) and d and isinstance(d[0], list): return 'm:' + ';'.join(','.join(frac(x) for x in r) for r in d)
     if isinstance(d, list): return 'v:' + ','.join(frac(x) for x in d)
     return 's:' + frac(d)
 
@@ -214,6 +230,16 @@ def compare(impl_line, model_line):
     return impl_line == model_line
 
 
+def as_array_key(key, i):
+    """every third operation a list of names is handed over as a NumPy array of names (also one level down)"""
+    if i % 3: return key
+    def conv(k):
+        return np.array(k) if (isinstance(k, list) and k and all(isinstance(x, str) for x in k)) else k
+    if isinstance(key, list) and key and all(isinstance(x, str) for x in key): return np.array(key)
+    if isinstance(key, tuple): return tuple(conv(k) for k in key)
+    return key
+
+
 def has_list(key):
     if isinstance(key, list): return True
     if isinstance(key, tuple): return any(has_list(k) for k in key)
@@ -258,6 +284,7 @@ class ChemSet:
         self.real = None
         self.specs = None              # [(ID, CAS, names)]
         self._fresh = None
+        self._table = None
 
     @staticmethod
     def make_chemical(tok):
@@ -277,18 +304,34 @@ class ChemSet:
         cc.compile(skip_checks=True)
         return cc, specs
 
-    def fresh(self):
-        """a chemicals object with the same definitions that has never served a lookup"""
-        if self._fresh is None:
-            cc, _ = self.build()
+    def table(self):
+        """name -> position (int) or positions (list), derived INDEPENDENTLY of the code under test from the chemicals'
+        own identifiers and name sets and from the user's definitions: ID and CAS of chemical k -> k; a name in the
+        name set of exactly one chemical -> that chemical; a name claimed by two -> undefined; an accepted alias ->
+        the position of its ID; a group -> the positions of its IDs in the user's order.  (Only the accept / reject
+        decision of set_alias / define_group is taken from the code; it is compared with the model separately.)"""
+        if self._table is None:
+            tab = {}
+            for k, (ID, cas, names, mw) in enumerate(self.specs):
+                tab[cas] = k
+            for k, (ID, cas, names, mw) in enumerate(self.specs):
+                tab[ID] = k
+            for k, (ID, cas, names, mw) in enumerate(self.specs):
+                for n in names:
+                    if n and n not in tab and sum(1 for s2 in self.specs if n in s2[2]) == 1: tab[n] = k
             for d in self.defs:
-                if d[0] == 'alias': cc.set_alias(d[1], d[2])
+                if d[0] == 'alias':
+                    if d[2] not in tab: tab[d[2]] = tab[d[1]]
                 elif d[0] == 'alias-failed':
-                    try: cc.set_alias(d[1], d[2])
-                    except Exception: pass
-                else: cc.define_group(d[1], d[2], d[3], d[4])
-            self._fresh = cc
-        return self._fresh
+                    # set_alias(<group name>, new) enters `new` as a second name of the group before it raises
+                    if isinstance(tab.get(d[1]), list) and d[2] not in tab and d[2] not in RESERVED: tab[d[2]] = tab[d[1]]
+                else:
+                    tab[d[1]] = [tab[i] for i in d[2]]
+            self._table = tab
+        return self._table
+
+    def mws(self):
+        return [Fraction(s[3]) for s in self.specs]
 
     def group_ids(self, name):
         """member IDs of a group in the order the user gave them (last definition)"""
@@ -304,8 +347,8 @@ class ChemSet:
                 ids, comp, wt = d[2], d[3], d[4]
                 comp = [Fraction(1)] * len(ids) if comp is None else [Fraction(x) for x in comp]
                 if (basis == 'wt') != bool(wt):
-                    fresh = self.fresh()
-                    mws = [Fraction(float(fresh.MW[fresh.index(i)])) for i in ids]
+                    tab, allmw = self.table(), self.mws()
+                    mws = [allmw[tab[i]] for i in ids]
                     comp = [c * m for c, m in zip(comp, mws)] if basis == 'wt' else [c / m for c, m in zip(comp, mws)]
                 tot = sum(comp)
                 return [x / tot for x in comp]
@@ -320,17 +363,14 @@ class Universe:
         self.seen = {}         # (ix, key repr, version, defs version) -> canonical answer
         self.tags = set()
         self.maxlen = {}
-        self.inexact = False   # the implementation's arithmetic is no longer exact (mass views, wt compositions)
+        self.inexact = set()   # indexers whose data have been through inexact arithmetic (mass views, wt=True compositions)
 
     # ---- oracle helpers --------------------------------------------------
     def pos_of(self, cs, name):
-        """position (int) or positions (list) of a name in the fresh object; None if undefined"""
+        """position (int) or positions (list) of a name by the independent table; None if undefined"""
         if not isinstance(name, str): return None
-        try:
-            p = cs.fresh().index(name)
-        except Exception:
-            return None
-        return p if isinstance(p, int) else list(p)
+        p = cs.table().get(name)
+        return list(p) if isinstance(p, list) else p
 
     def members(self, cs, name):
         """positions of the members of a group, in the user's definition order (aligned with group_comp)"""
@@ -385,7 +425,7 @@ class Universe:
         cs = self.sets[s]
         rows = dense(ix)
         if mass:
-            mw = [Fraction(float(x)) for x in cs.fresh().MW]
+            mw = cs.mws()
             rows = [[Fraction(x) * m for x, m in zip(r, mw)] for r in rows]
         multi = isinstance(ix, ind.MaterialIndexer)
         if isinstance(ix, ind.SplitIndexer):
@@ -501,11 +541,11 @@ class Universe:
             except Exception as e:
                 self.tags.add('alias:err:' + err_name(e))
                 # a failed call may have entered the name already (ID = a group name): the fresh object replays it
-                cs.defs.append(('alias-failed', ID, a)); cs._fresh = None
+                cs.defs.append(('alias-failed', ID, a)); cs._table = None
                 cs.shared.discard(a)
                 self.names_stay(cs, fail, 'alias')
                 return line, 'err=' + err_name(e)
-            cs.defs.append(('alias', ID, a)); cs._fresh = None
+            cs.defs.append(('alias', ID, a)); cs._table = None
             cs.shared.discard(a)
             self.tags.add('alias:ok')
             self.names_stay(cs, fail, 'alias')
@@ -526,9 +566,8 @@ class Universe:
             except Exception as e:
                 self.tags.add('group:err')
                 return line, 'err=' + err_name(e)
-            cs.defs.append(('group', name, ids, comp, wt)); cs._fresh = None
+            cs.defs.append(('group', name, ids, comp, wt)); cs._table = None
             cs.shared.discard(name)
-            if wt: self.inexact = True
             self.tags.add(('group:redefined' if redefinition else 'group:ok') + (':wt' if wt else ''))
             self.names_stay(cs, fail, 'group')
             p = cs.real.get_index(name)
@@ -559,13 +598,18 @@ class Universe:
             self.tags.add(f'phases:{len(m.phases)}')
             return line, 'ok ' + ''.join(m.phases)
 
-        if op in ('array', 'split'):
+        if op in ('array', 'split', 'iarray', 'isplit'):
             cs = self.sets[int(t[1])]
             key = parse_key(t[2]); data = parse_data(t[3])
             mline = f'{op} {t[1]} {model_key(key)} {t[3]}'
-            exp = self.expect_array(cs, key, data, op == 'split')
+            exp = self.expect_array(cs, key, data, op in ('split', 'isplit'), op == 'isplit')
+            as_dict = (i % 2 == 1 and isinstance(data, list) and len(data) == len(key) and len(set(map(str, key))) == len(key)
+                       and all(isinstance(k, str) for k in key))
             try:
-                v = cs.real.array(key, data) if op == 'array' else cs.real.split(key, data)
+                if op == 'array': v = cs.real.kwarray(dict(zip(key, data))) if as_dict else cs.real.array(key, data)
+                elif op == 'split': v = cs.real.kwsplit(dict(zip(key, data))) if as_dict else cs.real.split(key, data)
+                elif op == 'iarray': v = (cs.real.ikwarray(dict(zip(key, data))) if as_dict else cs.real.iarray(key, data)).data
+                else: v = (cs.real.isplit(dict(zip(key, data))) if as_dict else cs.real.isplit(data, order=key)).data
             except Exception as e:
                 self.tags.add(op + ':err:' + err_name(e))
                 if exp is not None:
@@ -587,10 +631,11 @@ class Universe:
             key = parse_key(t[2])
             mline = f'{op} {t[1]} {model_key(key)}'
             exp = self.expect_get(n, key, mass)
-            mark = '~' if (mass or self.inexact) else ''
+            rkey = as_array_key(key, i)
+            mark = '~' if (mass or n in self.inexact) else ''
             same = close_line if mark else (lambda a, b: a == b)
             try:
-                v = (ix.by_mass() if mass else ix)[key]
+                v = (ix.by_mass() if mass else ix)[rkey]
             except Exception as e:
                 self.note_cache(ix)
                 self.tags.add(op + ':err:' + err_name(e))
@@ -610,7 +655,7 @@ class Universe:
                     fail(f'{op}/{exp[0]}:mismatch', f'{t[2]} gave {ans}, the data at the positions of the names say {exp[1]}')
             else:
                 self.tags.add(op + ':unjudged')
-            hk = (n, mass, repr(key if not isinstance(key, list) else tuple(key)), self.version[n], len(cs.defs))
+            hk = (n, mass, t[2].replace('[', '(').replace(']', ')'), self.version[n], len(cs.defs))
             if hk in self.seen and self.seen[hk] != ans:
                 fail(f'{op}:history-dependent', f'{t[2]} gave {self.seen[hk]} earlier and {ans} now on unchanged data')
             self.seen.setdefault(hk, ans)
@@ -619,17 +664,32 @@ class Universe:
         if op in ('set', 'setm'):
             mass = op == 'setm'
             n = int(t[1]); ix, s = self.ixs[n]; cs = self.sets[s]
-            key = parse_key(t[2]); data = parse_data(t[3])
+            key = parse_key(t[2])
+            sparse_arg = None
+            if t[3].startswith('r:'):
+                # the value is a SparseVector: row `q` of indexer `j` (imol[key] = other.mol); the model is given its entries
+                j, q = map(int, t[3][2:].split('.'))
+                src = self.ixs[j][0]
+                sparse_arg = src.data.rows[q] if isinstance(src, ind.MaterialIndexer) else src.data
+                data = [float(x) for x in sparse_arg.to_array()]
+                if j in self.inexact: self.inexact.add(n)
+                self.tags.add('value:sparse-vector' + (':self' if sparse_arg is (ix.data.rows[0] if isinstance(ix, ind.MaterialIndexer) else ix.data) else ''))
+                t = t[:3] + [show_data(data)]
+            else:
+                data = parse_data(t[3])
             mline = f'{op} {t[1]} {model_key(key)} {t[3]}'
+            rkey = as_array_key(key, i)
             before = dense(ix)
             plan = self.write_plan(n, key, data, before, mass)
             addressed = self.addressed(n, key, before)
             arg = data
-            if isinstance(data, list) and (i % 2): arg = np.array(data, dtype=float)
-            if mass: self.inexact = True
-            mark = '~' if self.inexact else ''
+            if sparse_arg is not None: arg = sparse_arg
+            elif isinstance(data, list) and (i % 2): arg = np.array(data, dtype=float)
+            wt_groups = {d[1] for d in cs.defs if d[0] == 'group' and d[4]}
+            if mass or (wt_groups and any(g_ in t[2] for g_ in map(enc, wt_groups))): self.inexact.add(n)
+            mark = '~' if n in self.inexact else ''
             try:
-                (ix.by_mass() if mass else ix)[key] = arg
+                (ix.by_mass() if mass else ix)[rkey] = arg
             except Exception as e:
                 self.note_cache(ix)
                 self.tags.add(op + ':err:' + err_name(e))
@@ -664,6 +724,13 @@ class Universe:
                             fail(f'{op}/{form}:written', f'entry [{r},{j}] is {xa} after writing {t[3]} to {t[2]}; expected {float(want)}')
                             done = True; break
                     if done: break
+            elif addressed is not None:
+                # what is written is not pinned down (repeated positions, data of another length), where it may land is
+                self.tags.add(op + ':frame-only')
+                for r, (ra, rb) in enumerate(zip(after, before)):
+                    for j, (xa, xb) in enumerate(zip(ra, rb)):
+                        if (r, j) not in addressed[1] and xa != xb:
+                            fail(f'{op}/{addressed[0]}:frame', f'entry [{r},{j}] not addressed by {t[2]} changed {xb} -> {xa}')
             else:
                 self.tags.add(op + ':unjudged')
             return mline, mark + 'ok ' + show_dense(after)
@@ -708,11 +775,12 @@ class Universe:
                     for j, x in enumerate(row):
                         if x: want[tgt][casL.index(casR[j])] += Fraction(x)
             got = {p: [Fraction(x) for x in row] for p, row in zip(after_ph, after_rows)}
-            if not ok or (got != want and not (self.inexact and set(got) == set(want) and all(
+            if r in self.inexact: self.inexact.add(l)
+            if not ok or (got != want and not (l in self.inexact and set(got) == set(want) and all(
                     abs(float(a) - float(b)) <= 1e-12 + 1e-9 * abs(float(a)) for p in got for a, b in zip(got[p], want[p])))):
                 fail(f'{op}:mismatch', f'phases {after_ph} data {after_rows}; phase by phase and CAS by CAS it should be '
                                        f'{ {p: [float(x) for x in v] for p, v in want.items()} }')
-            return line, ('~' if self.inexact else '') + f'ok {"".join(after_ph)} ' + show_dense(after_rows)
+            return line, ('~' if l in self.inexact else '') + f'ok {"".join(after_ph)} ' + show_dense(after_rows)
 
         raise ValueError('unknown op ' + line)
 
@@ -739,31 +807,51 @@ class Universe:
         plan = self._write_plan(n, key, data, before, 'wt' if mass else 'mol')
         if plan is None or not mass: return plan
         cs = self.sets[self.ixs[n][1]]
-        mw = [Fraction(float(x)) for x in cs.fresh().MW]
+        mw = cs.mws()
         return plan[0], {(r, j): v / mw[j] for (r, j), v in plan[1].items()}
 
     def addressed(self, n, key, before):
-        """(form, {(row, col)}) the entries a valid key addresses, else None"""
-        try:
-            plan = self._write_plan(n, key, 0.0, before, 'mol')
-        except Exception:
-            return None
-        return None if plan is None else (plan[0], set(plan[1]))
+        """(form, {(row, col)}) the entries a valid key addresses (whatever the data), else None"""
+        ix, s = self.ixs[n]; cs = self.sets[s]
+        size = len(before[0])
+        if isinstance(ix, ind.MaterialIndexer):
+            if not (isinstance(key, (tuple, list)) and len(key) == 2):
+                if isinstance(key, str) and self.pos_of(cs, key) is None:
+                    p = self.phase_row(ix.phases, key)
+                    return None if p is None else ('phase', {(p, j) for j in range(size)})
+                return None
+            ph, ids = key
+            if self.pos_of(cs, ph) is not None: return None
+            if ph is Ellipsis: rows, prefix = list(range(len(before))), 'allphase+'
+            else:
+                p = self.phase_row(ix.phases, ph)
+                if p is None: return None
+                rows, prefix = [p], 'phase+'
+        else:
+            ids, rows, prefix = key, [0], ('split+' if isinstance(ix, ind.SplitIndexer) else '')
+        f = self.chem_form(cs, ids)
+        if f is None: return None
+        form, plan = f
+        if plan[0] == 'all': cols = range(size)
+        elif plan[0] == 'one': cols = [plan[1]]
+        elif plan[0] == 'grp': cols = plan[2]
+        else: cols = [i for e in plan[1] for i in ([e[1]] if e[0] == 'one' else e[2])]
+        return prefix + form, {(r, j) for r in rows for j in cols}
 
-    def expect_array(self, cs, key, data, split):
+    def expect_array(self, cs, key, data, split, scalar_groups=False):
         """canonical result of chemicals.array / split from the positions of the names in a fresh object"""
         if not isinstance(key, (tuple, list)) or not all(isinstance(k, str) for k in key): return None
         pos = [self.pos_of(cs, k) for k in key]
         if any(p is None for p in pos): return None
         grouped = any(isinstance(p, list) for p in pos)
         if grouped and not split: return None
-        size = cs.fresh().size
+        size = len(cs.specs)
         out = [Fraction(0)] * size
         if isinstance(data, list):
             if any(isinstance(x, list) for x in data) or len(data) != len(key): return None
             vals = data
         else:
-            if grouped: return None
+            if grouped and not scalar_groups: return None
             vals = [data] * len(key)
         for p, v in zip(pos, vals):
             for j in (p if isinstance(p, list) else [p]): out[j] = Fraction(v)
@@ -798,6 +886,41 @@ class Universe:
             for i in ([e[1]] if e[0] == 'one' else e[2]): exp[(0, i)] = x
         return form, exp
 
+    def _write_plan_2d(self, n, key, data, before, basis):
+        """2-d data (one row per phase) written through (..., IDs): row p of the data goes to phase p"""
+        ix, s = self.ixs[n]; cs = self.sets[s]
+        if not (isinstance(ix, ind.MaterialIndexer) and isinstance(key, (tuple, list)) and len(key) == 2 and key[0] is Ellipsis):
+            return None
+        if len(data) != len(before) or not all(isinstance(r, list) for r in data): return None
+        f = self.chem_form(cs, key[1])
+        if f is None: return None
+        form, plan = f
+        size = len(before[0])
+        exp = {}
+        if plan[0] == 'all':
+            if any(len(r) != size for r in data): return None
+            for p, r in enumerate(data):
+                for j in range(size): exp[(p, j)] = Fraction(r[j])
+        elif plan[0] == 'one':
+            if any(len(r) != 1 for r in data): return None
+            for p, r in enumerate(data): exp[(p, plan[1])] = Fraction(r[0])
+        elif plan[0] == 'grp':
+            comp = cs.group_comp(plan[1], basis); where = plan[2]            # x[p, j] * comp_j, at the group's index order
+            if comp is None or any(len(r) != len(where) for r in data) or len(set(where)) != len(where): return None
+            # the composition is stored in the user's order, aligned with the user's IDs
+            order = self.members(cs, plan[1])
+            if order != where: return None
+            for p, r in enumerate(data):
+                for j, (i, c) in enumerate(zip(where, comp)): exp[(p, i)] = Fraction(r[j]) * c
+        else:
+            ents = plan[1]
+            if any(e[0] == 'grp' for e in ents): return None
+            where = [e[1] for e in ents]
+            if len(set(where)) != len(where) or any(len(r) != len(where) for r in data): return None
+            for p, r in enumerate(data):
+                for j, i in enumerate(where): exp[(p, i)] = Fraction(r[j])
+        return 'allphase2d+' + form, exp
+
     def _write_plan(self, n, key, data, before, basis):
         if isinstance(self.ixs[n][0], ind.SplitIndexer):
             if isinstance(data, list) and any(isinstance(x, list) for x in data): return None
@@ -805,7 +928,8 @@ class Universe:
         ix, s = self.ixs[n]; cs = self.sets[s]
         multi = isinstance(ix, ind.MaterialIndexer)
         size = len(before[0])
-        if isinstance(data, list) and any(isinstance(x, list) for x in data): return None     # 2-d data
+        if isinstance(data, list) and any(isinstance(x, list) for x in data):
+            return self._write_plan_2d(n, key, data, before, basis)
         if multi:
             if not (isinstance(key, (tuple, list)) and len(key) == 2):
                 # a bare phase label resets that row
@@ -1094,7 +1218,7 @@ class Gen:
         return self.mat_key(n, bad, big) if isinstance(ix, ind.MaterialIndexer) else self.chem_key(s, bad, big)
 
     # ---- data --------------------------------------------------------------
-    def data_for(self, n, key):
+    def data_for(self, n, key, mass=False):
         """mostly well-shaped data for writing through `key`"""
         rng = self.rng
         ix, s = self.U.ixs[n]
@@ -1105,7 +1229,29 @@ class Gen:
         r = rng.random()
         split_nested = isinstance(ix, ind.SplitIndexer) and isinstance(ids, (tuple, list)) and any(
             isinstance(self.U.pos_of(self.U.sets[s], x), list) for x in ids if isinstance(x, str))
-        if r < 0.02 and ph is not Ellipsis and not split_nested: return 'm:'
+        if r < 0.02 and ph is not Ellipsis and not split_nested: return 'm:1,2'
+        q = rng.random()
+        too_short = isinstance(ids, (tuple, list)) and len(ids) > size       # sparse_vector[n] beyond its size reads 0, a list raises
+        if q < 0.07 and not isinstance(ix, ind.SplitIndexer) and ph is not Ellipsis and not too_short:
+            # the value is a SparseVector: a row of an indexer of the same chemicals object (possibly this very row)
+            cands = [(j, k_) for j, (jx, js) in enumerate(self.U.ixs) if js == s and not isinstance(jx, ind.SplitIndexer)
+                     for k_ in range(len(jx.phases) if isinstance(jx, ind.MaterialIndexer) else 1)]
+            # the indexer's own row as the value is meaningful only where the code guards it (`if data is sparse: return`):
+            # a reset of that very row; elsewhere the data would change while they are being read
+            lab = ph if isinstance(ph, str) else (key if (multi and isinstance(key, str)) else None)
+            my_row = 0 if not multi else (self.U.phase_row(ix.phases, lab) if lab is not None else None)
+            reset_key = ids is Ellipsis or (multi and ph is None and isinstance(key, str))
+            self_ok = reset_key and (GEN_ALIASED_MASS_VALUE or not mass)
+            cands = [(j, k_) for (j, k_) in cands if self_ok or not (j == n and (my_row is None or k_ == my_row))]
+            if cands:
+                j, k_ = rng.choice(cands)
+                return f'r:{j}.{k_}'
+        nested_ids = isinstance(ids, (tuple, list)) and any(isinstance(self.U.pos_of(self.U.sets[s], x), list) or not isinstance(x, str) for x in ids)
+        if q < 0.2 and multi and ph is Ellipsis and not nested_ids and (ids is Ellipsis or isinstance(ids, (str, tuple, list))):
+            # 2-d data, one row per phase
+            width = size if ids is Ellipsis else (1 if isinstance(ids, str) and not isinstance(self.U.pos_of(self.U.sets[s], ids), list)
+                                                  else len(self.U.pos_of(self.U.sets[s], ids) or []) if isinstance(ids, str) else len(ids))
+            if width: return show_data([[dy(rng) for _ in range(width)] for _ in ix.phases])
         if ids is Ellipsis or (multi and ph is None and isinstance(key, str)):
             if r < 0.5: return show_data(dy(rng))
             return show_data([dy(rng) for _ in range(size if (r < 0.97 or ph is Ellipsis) else rng.randrange(0, size + 1))])
@@ -1189,18 +1335,18 @@ class Gen:
         key = self.key(n, bad)
         m = 'm' if (rng.random() < 0.1 and not isinstance(self.U.ixs[n][0], ind.SplitIndexer)) else ''
         if rng.random() < pset:
-            self.do(f'set{m} {n} {show_key(key)} {self.data_for(n, key)}')
+            self.do(f'set{m} {n} {show_key(key)} {self.data_for(n, key, bool(m))}')
             if rng.random() < 0.7: self.do(f'get{m if rng.random() < 0.7 else ""} {n} {show_key(key)}')
         else:
             self.do(f'get{m} {n} {show_key(key)}')
 
     def array_op(self, s):
-        """chemicals.array / split: name-keyed construction of an array through the chemicals memo"""
+        """chemicals.array / kwarray / split / kwsplit / iarray / ikwarray / isplit: name-keyed construction"""
         rng = self.rng
-        op = rng.choice(['array', 'array', 'split'])
+        op = rng.choice(['array', 'array', 'split', 'iarray', 'isplit'])
         k = rng.choice([1, 2, 2, 3, 4])
         names, groups = self.accepted(s)
-        seq = [self.name(s, 0.03) if (op == 'split' or rng.random() < 0.1) else rng.choice(names) for _ in range(k)]
+        seq = [self.name(s, 0.03) if (op in ('split', 'isplit') or rng.random() < 0.1) else rng.choice(names) for _ in range(k)]
         key = tuple(seq) if rng.random() < 0.6 else seq
         r = rng.random()
         if r < 0.25: data = show_data(dy(rng))
@@ -1537,6 +1683,17 @@ def corpus():
         Case(['chems Propanol Isopropanol Water', 'cix 0', 'mix 0 lg', 'set 0 * v:1,2,4', 'get 0 C3H8O', 'get 0 (Water,C3H8O)', 'get 1 (l,C3H8O)',
               'get 0 propan-1-ol', 'get 0 propan-2-ol', 'alias 0 Propanol C3H8O', 'get 0 C3H8O'], {'kind': 'corpus-isomers'}),
     ]
+    cases.append(
+        # 15. values that are SparseVectors (imol[...] = other.mol), also the indexer's own row; 2-d data; array keys; constructors
+        Case([W, 'cix 0', 'cix 0', 'mix 0 lg', 'set 0 * v:1,2,4', 'set 1 * v:8,0,0', 'set 0 * r:1.0', 'get 0 *', 'set 0 * r:0.0', 'get 0 *',
+              'set 2 l v:1,2,4', 'set 2 l r:1.0', 'get 2 l', 'set 2 (g,*) r:2.1', 'get 2 (*,*)', 'set 0 (Ethanol,Water) r:1.0', 'get 0 *',
+              'setm 2 g r:1.0', 'get 2 g', 'set 2 (*,(Water,Methanol)) m:1,2;3,4', 'get 2 (*,*)', 'set 2 (*,Ethanol) m:5;6',
+              'set 2 (*,*) m:1,0,2;0,3,0', 'get 2 [l,[Water,Methanol]]', 'get 0 [Water,Methanol]', 'iarray 0 (Methanol,Water) v:1,2',
+              'iarray 0 [Water,Ethanol] v:3,4', 'isplit 0 (Methanol,Water) v:1/2,1/4', 'isplit 0 [Water,Ethanol] v:1/2,1', 'isplit 0 (Water) s:1/4'],
+             {'kind': 'corpus-values'}))
+    if GEN_ALIASED_MASS_VALUE:
+        cases.append(Case([W, 'cix 0', 'mix 0 lg', 'set 0 * v:1,2,4', 'setm 0 * r:0.0', 'get 0 *', 'set 1 l v:1,2,4', 'setm 1 l r:1.1', 'get 1 l',
+                           'setm 1 (g,*) r:1.1', 'get 1 (*,*)'], {'kind': 'corpus-mass-alias'}))
     if GEN_GROUP_CLOBBER:
         cases.append(Case([W, 'group 0 G Methanol,Ethanol -', 'cix 0', 'set 0 * v:1,2,4', 'get 0 Water', 'group 0 Water Ethanol,Methanol -',
                            'get 0 Water', 'group 0 size Water -', 'group 0 H2O Ethanol -', 'get 0 H2O', 'group 0 G Water -', 'get 0 G'],
